@@ -1760,6 +1760,12 @@ def alg_in_fragment(a):
         return exists_free(a[1]) and alg_in_fragment(a[2])
     if k == "extend":
         return exists_free(a[3]) and alg_in_fragment(a[1])
+    if k == "project":
+        return alg_in_fragment(a[1])
+    if k == "graph":
+        return alg_in_fragment(a[2])
+    if k == "minus":
+        return alg_in_fragment(a[1]) and alg_in_fragment(a[2])
     return False
 
 
